@@ -80,25 +80,28 @@ def model_eq(old, x, approved):
 
 
 def model_getitem(old, accesses, approved):
+    """accesses: [(key, value, compared?)] - s[key] evaluated, and (if compared) s[key] == value"""
     first = {}
-    for k, x in accesses:
-        if k not in first:
+    accessed = []
+    for k, x, compared in accesses:
+        if k not in accessed:
+            accessed.append(k)
+        if compared and k not in first:
             first[k] = x
     if old is MISSING:
         return {"create"}, (dict(first) if "create" in approved else MISSING)
     cats = set()
     value = {}
     for k, v in old.items():
-        if k not in first:
-            cats.add("trim")
+        if k not in accessed:
+            cats.add("trim")  # only keys that were never accessed are slack
             if "trim" not in approved:
                 value[k] = v
+        elif k not in first or v == first[k]:
+            value[k] = v
         else:
-            if v == first[k]:
-                value[k] = v
-            else:
-                cats.add("fix")
-                value[k] = first[k] if "fix" in approved else v
+            cats.add("fix")
+            value[k] = first[k] if "fix" in approved else v
     for k, x in first.items():
         if k not in old:
             cats.add("create")
@@ -122,7 +125,7 @@ def same_members(a, b):
 # ------------------------------------------------------------------ harness bodies
 
 
-def run_site(op, old_src, xs, approved, keys=None):
+def run_site(op, old_src, xs, approved, keys=None, compared=None):
     """returns (categories without update, update pending?, value read back from the rewritten text, text)"""
     ns = dict(SUPPORT_NS)
     ns.update(W.ns)
@@ -130,6 +133,7 @@ def run_site(op, old_src, xs, approved, keys=None):
     ns["res"] = []
     if keys is not None:
         ns["ks"] = keys
+        ns["cs"] = list(compared) if compared is not None else [True] * len(keys)
     world.reset(ns)
     arg = old_src or ""
     if op in ("<=", ">="):
@@ -139,7 +143,7 @@ def run_site(op, old_src, xs, approved, keys=None):
     elif op == "in":
         body = f"    for x in xs:\n        res.append(x in snapshot({arg}))\n"
     elif op == "[]":
-        body = f"    s = snapshot({arg})\n    for k, x in zip(ks, xs):\n        res.append(s[k] == x)\n"
+        body = f"    s = snapshot({arg})\n    for k, x, compared in zip(ks, xs, cs):\n        child = s[k]\n        if compared:\n            res.append(child == x)\n"
     t = HEAD + "def test_a():\n" + body
     r = world.core_session(t, approved)
     ast.parse(r.text)
@@ -202,13 +206,14 @@ def check_eq(has_old, hand, c0, x0, approved):
     return v == want
 
 
-def check_getitem(old_keys, olds, keys, xs, approved):
+def check_getitem(old_keys, olds, keys, xs, approved, compared=None):
     W.ns = {f"c{i}": o for i, o in enumerate(olds)}
     has_old = old_keys is not None
     old_src = "{" + ", ".join(f"{k}: c{i}" for i, k in enumerate(old_keys)) + "}" if has_old else None
-    r, v = run_site("[]", old_src, xs, approved, keys=list(keys))
+    compared = list(compared) if compared is not None else [True] * len(keys)
+    r, v = run_site("[]", old_src, xs, approved, keys=list(keys), compared=compared)
     old = {k: o for k, o in zip(old_keys, olds)} if has_old else MISSING
-    cats, want = model_getitem(old, list(zip(keys, xs)), approved)
+    cats, want = model_getitem(old, list(zip(keys, xs, compared)), approved)
     PathLog.record(f"gi{old_keys}{keys}{sorted(approved)}{sorted(r.categories)}{r.text}", nontrivial=bool(r.categories),
                    sample={"op": "snapshot[key] == x", "old": old_src, "accessed": list(keys), "approved": sorted(approved), "reported": sorted(r.categories), "rewritten": world.snapshot_arg_sources(r.text)})
     if r.categories != cats:
@@ -276,16 +281,18 @@ def conditions(tier):
             body = f"return check_eq({has_old}, {hand}, c0, x0, {sub!r})"
             conds.append(Cond(name, mkfn(name, [("c0", "int"), ("x0", "int")], body, GLB), timeout=600, group=f"eq-{sn}",
                               bounds=f"x == snapshot({'h0 (hand-written)' if hand else ('c0' if has_old else '')}), approved={sorted(sub)}"))
-        gi = [(None, (1,)), (None, (1, 2)), ((1,), (1,)), ((1,), (2,)), ((1, 2), (2,)), ((1, 2), (1, 3)), ((1, 2), (2, 2))]
+        gi = [(None, (1,), None), (None, (1, 2), None), ((1,), (1,), None), ((1,), (2,), None), ((1, 2), (2,), None), ((1, 2), (1, 3), None), ((1, 2), (2, 2), None),
+              # keys that are accessed (s[key] evaluated) but not compared in this run
+              ((1, 2, 3), (1, 2), (True, False)), ((1, 2), (2, 3), (False, True)), ((1,), (1, 2), (False, False)), (None, (1, 2), (True, False))]
         if not q:
-            gi += [((1, 2), (3, 1, 2)), ((1, 2, 3), (2, 4)), ((), (1,)), ((1,), (1, 1, 2))]
-        for old_keys, keys in gi:
+            gi += [((1, 2), (3, 1, 2), None), ((1, 2, 3), (2, 4), None), ((), (1,), None), ((1,), (1, 1, 2), None), ((1, 2), (1, 1), (False, True)), ((1, 2, 3), (3, 2, 1), (True, False, True))]
+        for old_keys, keys, compared in gi:
             k = len(old_keys or ())
             params = [(f"c{i}", "int") for i in range(k)] + [(f"x{i}", "int") for i in range(len(keys))]
-            body = f"return check_getitem({old_keys!r}, [{', '.join(f'c{i}' for i in range(k))}], {keys!r}, [{', '.join(f'x{i}' for i in range(len(keys)))}], {sub!r})"
-            name = f"gi_{''.join(map(str, old_keys)) if old_keys is not None else 'x'}_{''.join(map(str, keys))}_{sn}"
+            body = f"return check_getitem({old_keys!r}, [{', '.join(f'c{i}' for i in range(k))}], {keys!r}, [{', '.join(f'x{i}' for i in range(len(keys)))}], {sub!r}, {compared!r})"
+            name = f"gi_{''.join(map(str, old_keys)) if old_keys is not None else 'x'}_{''.join(map(str, keys))}{'_' + ''.join('c' if c else 'a' for c in compared) if compared else ''}_{sn}"
             conds.append(Cond(name, mkfn(name, params, body, GLB), timeout=600, group=f"getitem-{sn}",
-                              bounds=f"s = snapshot({dict.fromkeys(old_keys, '..') if old_keys is not None else ''}); s[k] == x for k in {keys}, approved={sorted(sub)}"))
+                              bounds=f"s = snapshot({dict.fromkeys(old_keys, '..') if old_keys is not None else ''}); s[k] evaluated for k in {keys}{' and compared where ' + str(compared) if compared else ' and compared'}, approved={sorted(sub)}"))
     # update never changes the value
     upd = [
         ("[h0, h1]", "[n0, n1]", ["h0", "h1", "n0", "n1"]),
